@@ -30,20 +30,22 @@ type PCmd struct {
 }
 
 type NodeConn struct {
-	Id      string
-	node    *Node
-	c       *net.TCPConn
-	rc      syscall.RawConn
-	buf     []byte
-	Pending []*PCmd
-	Closed  bool // closed by the node (us)
-	PeerEOF bool // the proxy closed it
-	Remote  string
-	Data    bool // carried at least one data command or handshake
-	Admin   bool // carried INFO/PING (refresher / monitor connections)
-	rest    []byte
-	restEv  *Event // the "answer" event of the reply whose second half is in rest
-	NRecv   int
+	Id       string
+	node     *Node
+	c        *net.TCPConn
+	rc       syscall.RawConn
+	buf      []byte
+	Pending  []*PCmd
+	Closed   bool // closed by the node (us)
+	PeerEOF  bool // the proxy closed it
+	Remote   string
+	Data     bool // carried at least one data command or handshake
+	Admin    bool // carried INFO/PING (refresher / monitor connections)
+	rest     []byte
+	ReadOnly bool   // the connection has sent READONLY
+	restEv   *Event // the "answer" event of the reply whose second half is in rest
+	heldAcks int    // acknowledgements of READONLY that are being kept back
+	NRecv    int
 }
 
 type Node struct {
@@ -87,9 +89,31 @@ type Cluster struct {
 	// Boot: CLUSTER NODES is auto-answered even when cfg.ScriptTopo (used during bootstrap)
 	Boot bool
 	free bool
+	// HoldReadonly: the +OK of READONLY is kept back until ReleaseAcks
+	HoldReadonly bool
 	// HoldTopo: CLUSTER NODES commands wait at the head of their connection's queue until ReleaseTopo (the
 	// reply then carries what the cluster publishes at that moment)
 	HoldTopo bool
+}
+
+// ReleaseAcks sends the acknowledgements of READONLY that node name has been keeping back.
+func (cl *Cluster) ReleaseAcks(name string) int {
+	cl.mu.Lock()
+	defer cl.mu.Unlock()
+	k := 0
+	n := cl.byName[name]
+	if n == nil {
+		return 0
+	}
+	for _, nc := range n.Conns {
+		for nc.heldAcks > 0 && !nc.Closed && !nc.PeerEOF {
+			nc.heldAcks--
+			cl.log.Add(Event{Ev: "answerauto", N: n.Name, Conn: nc.Id, K: "readonly"})
+			nc.c.Write([]byte("+OK\r\n"))
+			k++
+		}
+	}
+	return k
 }
 
 // SetHoldTopo switches the holding of CLUSTER NODES answers on or off (off: held ones are answered).
@@ -475,6 +499,10 @@ func (cl *Cluster) ConnByRemote(remote string) *NodeConn {
 }
 
 func (cl *Cluster) keyTok(key string) (Tok, bool) {
+	// (bytes in front of the hash tag are allowed as long as they contain no brace)
+	if b := strings.IndexByte(key, '{'); b > 0 && !strings.ContainsAny(key[:b], "}") {
+		key = key[b:]
+	}
 	if len(key) < 3 || key[0] != '{' {
 		return Tok{}, false
 	}
@@ -559,6 +587,17 @@ func (cl *Cluster) processLocked(nc *NodeConn) {
 			nc.c.Write([]byte("+PONG\r\n"))
 			continue
 		case "auth", "readonly":
+			if name == "readonly" {
+				nc.ReadOnly = true
+				if cl.HoldReadonly && !nc.Admin {
+					// the acknowledgement of READONLY is kept back until "hsrelease": it reaches the proxy in a later read
+					// than the acknowledgement of AUTH
+					nc.Data = true
+					cl.log.Add(Event{Ev: "recv", N: nc.node.Name, Conn: nc.Id, K: name})
+					nc.heldAcks++
+					continue
+				}
+			}
 			if !nc.Admin {
 				nc.Data = true
 				ev := Event{Ev: "recv", N: nc.node.Name, Conn: nc.Id, K: name}
@@ -803,6 +842,12 @@ func (cl *Cluster) Answer(name, kind, cls, to string, raw []byte, part string) b
 		ev := cl.answerEvent(nc, pc, b, kind, cls, to)
 		nc.restEv = &ev
 		return true
+	}
+	if n.Role == "slave" && n.MasterOf != "" && !nc.ReadOnly && part == "" && raw == nil && (kind == "ok" || kind == "nil" || kind == "mix" || kind == "mixe" || kind == "empty") {
+		// what a Redis replica does with a data command on a connection that has not sent READONLY: it points to its master
+		if m := cl.byName[n.MasterOf]; m != nil && m != n {
+			kind, to = "moved", n.MasterOf
+		}
 	}
 	cl.answerLocked(nc, kind, cls, to, raw)
 	return true
